@@ -34,6 +34,7 @@ def scenarios(tier):
         for how in ('name', 'array'):
             out.append({'name': f'make_poly_collection[{cfg[0]} {cfg[2]}, by {how}]', 'fn': 'scn_poly', 'kwargs': {'ci': ci, 'how': how}})
         out.append({'name': f'make_poly_collection overrides[{cfg[0]} {cfg[2]}]', 'fn': 'scn_overrides', 'kwargs': {'ci': ci}})
+        out.append({'name': f'make_poly_collection after an earlier plot of the same name[{cfg[0]} {cfg[2]}]', 'fn': 'scn_poly_history', 'kwargs': {'ci': ci}})
         out.append({'name': f'make_quiver[{cfg[0]} {cfg[2]}]', 'fn': 'scn_quiver', 'kwargs': {'ci': ci}})
         out.append({'name': f'animate_on_figure[{cfg[0]} {cfg[2]}]', 'fn': 'scn_animate', 'kwargs': {'ci': ci}})
     out.append({'name': 'leftover dimensions are refused', 'fn': 'scn_refuse', 'kwargs': {}})
@@ -124,6 +125,29 @@ def scn_poly(c, ci, how):
     c.check('default colour limits are (nanmin, nanmax) of exactly the plotted values',
             ok and clim[0]._reduce[0] == 'min' and clim[1]._reduce[0] == 'max' and clim[0]._reduce[1] is arr and clim[1]._reduce[1] is arr)
     c.check('the data CRS is the default transform', isinstance(kwargs.get('transform'), Recorder))
+
+
+def scn_poly_history(c, ci):
+    """A collection built after another array of the same name was plotted on the same dataset (another time step, a derived array)
+    carries the array it was given: nothing plotted earlier is remembered."""
+    from pyvc.lib.xarray_ import XDataArray
+    it, ds, conv, conv_name = _setup(c, ci)
+    earlier = XDataArray(_var=ds._vars['u'], name='v')          # other values under the same name
+    expect_ok(c, 'an earlier make_poly_collection returns', lambda: method(it, conv, 'make_poly_collection', earlier))
+    n0 = len(c.events)
+    expect_ok(c, 'make_poly_collection returns after an earlier plot of an array of the same name', lambda: method(it, conv, 'make_poly_collection', 'v'))
+    calls = [e for e in c.events[n0:] if e[0] == 'plot' and e[1].endswith('PolyCollection')]
+    c.check('exactly one PolyCollection is built by the later call', len(calls) == 1)
+    if len(calls) != 1:
+        raise PathEnd()
+    kwargs, arr = _check_pairing(c, it, ds, conv, calls[0], 'v', tag='after an earlier plot of the same name: ')
+    clim = kwargs.get('clim')
+    ok = isinstance(clim, tuple) and len(clim) == 2 and all(hasattr(x, '_reduce') for x in clim)
+    c.check('after an earlier plot of the same name: colour limits are those of the values plotted now',
+            ok and clim[0]._reduce[1] is arr and clim[1]._reduce[1] is arr)
+    leftover = XDataArray(_var=ds._vars['w'], name='v')          # a (t, ...) array under the same name is still refused
+    expect_raise(c, 'a variable with a leftover dimension is still refused after a plot of the same name',
+                 lambda: method(it, conv, 'make_poly_collection', leftover), ValueError)
 
 
 def scn_overrides(c, ci):
